@@ -125,7 +125,7 @@ def replay(ctx, case):
 
 
 MANIFEST = dict(
-    text='Proof (MODULAR/PARTIAL): the 2x2 operators chosen by _build_multiplexor map the normalised child pair to e_bit for both target bits and for the vanishing-|0>-child case, and are unitary (C12_branch0/1, C12_diag0/1, C12_G0_unitary; any field with involution); induction over the levels with the carried diagonal: if every level's operators disentangle their child pairs and the next children are diagonal * parent, the n levels map the vector to (last child)|t> for every n, t and vector (C12_level_step, C12_levels_target). Tie: every operator list built during a run is checked against these statements, every UCGate against the contract diag(_get_diagonal())*circuit = multiplexer, every _apply_diagonal result against diagonal * parent. Column t, preserve option and UCGE are evaluated.',
+    text='Proof (MODULAR/PARTIAL): the 2x2 operators chosen by _build_multiplexor map the normalised child pair to e_bit for both target bits and for the vanishing-|0>-child case, and are unitary (C12_branch0/1, C12_diag0/1, C12_G0_unitary; any field with involution); induction over the levels with the carried diagonal: if the operators of every level disentangle their child pairs and the next children are diagonal * parent, the n levels map the vector to (last child)|t> for every n, t and vector (C12_level_step, C12_levels_target). Tie: every operator list built during a run is checked against these statements, every UCGate against the contract diag(_get_diagonal())*circuit = multiplexer, every _apply_diagonal result against diagonal * parent. Column t, preserve option and UCGE are evaluated.',
     note="Modelled, not verified: Qiskit UCGate synthesis and inverse(); preserve option; UCGE simplification.",
     technique='Coq/mathcomp proof + runtime contract monitors + operator-column evaluation',
     design_ref='DESIGN.md section 4, C12')
